@@ -1764,3 +1764,57 @@ def r_flow_scalar_first_chunk(ctx, repo):
                       'scalar that begins with an escaped quote is closed at its second character (the dumpers write exactly this '
                       'for a string starting with an apostrophe)')
     return rule
+
+
+# --------------------------------------------------------------------------------- R-FIRST-DOCUMENT-STATE-ONCE
+def r_first_document_state_once(ctx, repo):
+    rule = ctx.rule('R-FIRST-DOCUMENT-STATE-ONCE', 'the state in which a document may start without "---" (expect_first_document_start) is '
+                                                   'entered from expect_stream_start only: every later document gets its "---"')
+    E = repo.cls('emitter.Emitter')
+    if 'expect_first_document_start' not in E.methods:
+        raise AnalysisError('Emitter.expect_first_document_start has vanished')
+    n = 0
+    for m in E.methods.values():
+        for x in walk_function(m.node):
+            if isinstance(x, ast.Attribute) and x.attr == 'expect_first_document_start' and isinstance(x.ctx, ast.Load):
+                n += 1
+                if m.name == 'expect_stream_start':
+                    rule.ok(m.loc(x), 'entered from expect_stream_start')
+                else:
+                    rule.fail('%s|first-document-state' % m.qualname, m.module.rel, x.lineno, m.qualname,
+                              A.anon_text(A.enclosing_stmt(x), m.node, 60),
+                              '%s makes the emitter expect a *first* document again: a later document whose start is not explicit '
+                              'is written without "---", and after a "..." marker that text is not a valid stream' % m.qualname)
+    if not n:
+        raise AnalysisError('expect_first_document_start is never entered')
+    return rule
+
+
+# ------------------------------------------------------------------------------------ R-PRINTABLE-ONE-TEST
+def r_printable_one_test(ctx, repo):
+    rule = ctx.rule('R-PRINTABLE-ONE-TEST', 'check_printable applies one and the same character test (NON_PRINTABLE) to every chunk, '
+                                            'whatever else the chunk contains: the verdict on a character does not depend on which '
+                                            'characters were delivered together with it')
+    f = _method(repo, 'reader.Reader', 'check_printable')
+    data = f.params[1] if len(f.params) > 1 else None
+    searches = [c for c in A.func_calls(f.node) if isinstance(c.func, ast.Attribute) and c.func.attr in ('search', 'match', 'finditer', 'findall', 'fullmatch')]
+    if not searches:
+        raise AnalysisError('check_printable: no regular-expression search found')
+    recv = {norm(c.func.value) for c in searches}
+    bad = [r for r in recv if not r.endswith('.NON_PRINTABLE')]
+    cond = []
+    for c in searches:
+        for iff, br in A.guarding_ifs(c, f.node):
+            if any(isinstance(x, ast.Name) and x.id == data for x in ast.walk(iff.test)):
+                cond.append(iff)
+    if bad or cond:
+        at = (cond[0] if cond else searches[0])
+        rule.fail('%s|chunk-dependent' % f.qualname, f.module.rel, at.lineno, f.qualname,
+                  A.anon_text(at.test if cond else at, f.node, 60),
+                  'check_printable chooses the character test according to the chunk it is given (%s): a character that is rejected '
+                  'when it arrives together with some other character is accepted when it arrives in another chunk, so the same '
+                  'input is valid or not depending on how the stream delivers it'
+                  % ('a second pattern %s' % bad[0] if bad else 'a condition on the chunk'))
+    else:
+        rule.ok(f.loc(searches[0]), 'one unconditional NON_PRINTABLE search per chunk')
+    return rule
